@@ -334,6 +334,7 @@ type ShimCase struct {
 	Reads       []int  `json:"read_sizes"`
 	Status      int    `json:"status"`
 	ThenBanner  bool   `json:"then_banner"`
+	Filler      string `json:"filler,omitempty"` // what the bytes before <head> are made of (default "p")
 }
 
 const startMark, endMark = "<!--START_WEBSOCKET_SHIM-->", "<!--END_WEBSOCKET_SHIM-->"
@@ -362,13 +363,22 @@ func genShim(t *rapid.T) ShimCase {
 		c.Pre = 12
 	}
 	c.Reads = rapid.SliceOfN(rapid.SampledFrom([]int{1, 3, 6, 7, 100, 512, 1018, 1023, 1024, 1025, 4096, 100000}), 0, 4).Draw(t, "reads")
+	// mostly ASCII; sometimes valid multi-byte UTF-8, characters whose case mapping changes length, or legacy 8-bit bytes
+	c.Filler = rapid.SampledFrom([]string{"p", "p", "p", "\u00e9", "\u0130", "\u212a", "\xe9", "\xff", "<!-- \xc4\xd6 -->", "P"}).Draw(t, "filler")
 	return c
 }
 
 func (c *ShimCase) body() []byte {
 	var b bytes.Buffer
 	if c.Pre >= 0 {
-		b.WriteString(strings.Repeat("p", c.Pre))
+		f := c.Filler
+		if f == "" {
+			f = "p"
+		}
+		for b.Len()+len(f) <= c.Pre {
+			b.WriteString(f)
+		}
+		b.WriteString(strings.Repeat("p", c.Pre-b.Len()))
 		b.WriteString(c.HeadForm)
 	}
 	b.WriteString("<title>x</title>")
@@ -478,15 +488,29 @@ func runShim(c *ShimCase) vh.Outcome {
 		return o
 	}
 	o.Classes = append(o.Classes, "html-spliced")
-	if idx < 0 {
+	// tag names are case-insensitive: a splice after the first <head> in any letter case is as good as one after the
+	// first lower-case one (the pinned code only recognises the latter, which is why only that one is demanded above)
+	idxAny := bytes.Index(bytes.ToLower(asciiOnlyLower(orig)), []byte("<head>"))
+	isSplice := func(at int) bool {
+		if at < 0 {
+			return false
+		}
+		cut := at + 6
+		return len(got) >= len(orig) && bytes.Equal(got[:cut], orig[:cut]) && bytes.Equal(got[len(got)-(len(orig)-cut):], orig[cut:])
+	}
+	switch {
+	case isSplice(idx):
+	case isSplice(idxAny):
+		idx = idxAny
+		o.Classes = append(o.Classes, "spliced-after-uppercase-head")
+	case idx < 0 && idxAny < 0:
 		o.Err = fmt.Errorf("body without a <head> tag was altered: %d -> %d bytes", len(orig), len(got))
 		return o
-	}
-	cut := idx + 6
-	if len(got) < len(orig) || !bytes.Equal(got[:cut], orig[:cut]) || !bytes.Equal(got[len(got)-(len(orig)-cut):], orig[cut:]) {
+	default:
 		o.Err = fmt.Errorf("altered body is not 'original with something inserted immediately after the first <head>' (first <head> at %d, %d -> %d bytes)", idx, len(orig), len(got))
 		return o
 	}
+	cut := idx + 6
 	ins := string(got[cut : len(got)-(len(orig)-cut)])
 	if strings.Count(ins, startMark) != 1 || strings.Count(ins, endMark) != 1 || !strings.Contains(ins, "<script>") || !strings.Contains(ins, "/shimpath/") ||
 		!strings.HasPrefix(strings.TrimSpace(ins), startMark) || !strings.HasSuffix(strings.TrimSpace(ins), endMark) {
@@ -497,6 +521,17 @@ func runShim(c *ShimCase) vh.Outcome {
 		o.Classes = append(o.Classes, "spliced-beyond-first-read")
 	}
 	return o
+}
+
+// asciiOnlyLower lower-cases A-Z only, so that offsets stay valid for any bytes.
+func asciiOnlyLower(b []byte) []byte {
+	out := append([]byte(nil), b...)
+	for i, c := range out {
+		if c >= 'A' && c <= 'Z' {
+			out[i] = c + 32
+		}
+	}
+	return out
 }
 
 func TestPropShimScript(t *testing.T) {
